@@ -337,7 +337,14 @@ def canon(v: Any, depth: int = 0) -> Any:
     if isinstance(v, dict):
         return ("rec", tuple((k, canon(x, depth + 1)) for k, x in v.items()))
     if dataclasses.is_dataclass(v) and not isinstance(v, type):
-        return ("rec", tuple((f.name, canon(getattr(v, f.name), depth + 1)) for f in dataclasses.fields(v)))
+        # what Python's constructor bound, read as the dictionary of the GIVEN init parameters in signature order
+        # (a parameter left to its default holds the class model's _OMIT marker; init=False fields are no parameters)
+        items = []
+        for name in inspect.signature(type(v)).parameters:
+            val = getattr(v, name, None)
+            if type(val).__name__ != "_Omit":
+                items.append((name, canon(val, depth + 1)))
+        return ("rec", tuple(items))
     if isinstance(v, Term):
         return ("term", v.name, canon(v.seq, depth + 1), tuple(canon(a, depth + 1) for a in v.args))
     if hasattr(v, "ident"):
@@ -425,7 +432,66 @@ class P2:
 class N2(NamedTuple):
     u: Any
     v: Any
+
+
+class _Omit:
+    "the value of a record parameter that was not given (the library lowers a constructor call to the dictionary of the GIVEN parameters)"
+
+
+_OMIT = _Omit()
+
+
+@dataclasses.dataclass
+class R3:                       # a field that is no constructor parameter, declared in front of a later parameter
+    x: Any
+    tmp: Any = dataclasses.field(init=False, default=_OMIT)
+    y: Any = _OMIT
+
+
+@dataclasses.dataclass
+class R4:                       # a constructor parameter that is no field
+    x: Any
+    s: dataclasses.InitVar[Any]
+    y: Any = _OMIT
+
+    def __post_init__(self, s):
+        self.s = s
+
+
+@dataclasses.dataclass
+class R5:                       # a keyword-only field declared first: the signature is (x, y=..., *, k)
+    k: Any = dataclasses.field(kw_only=True)
+    x: Any
+    y: Any = _OMIT
+
+
+@dataclasses.dataclass(kw_only=True)
+class _B6:
+    k: Any = _OMIT
+
+
+@dataclasses.dataclass
+class R6(_B6):                  # keyword-only base, plain subclass: fields k, x, y - signature (x, y=..., *, k=...)
+    x: Any
+    y: Any = _OMIT
+
+
+@dataclasses.dataclass
+class R7:                       # the KW_ONLY sentinel after an init=False field
+    n: Any = dataclasses.field(init=False, default=_OMIT)
+    x: Any = _OMIT
+    _: dataclasses.KW_ONLY
+    k: Any = _OMIT
 '''
+
+# constructor signatures of the record classes: positional parameters, keyword-only parameters, required ones
+RECORD_CLASSES = {
+    "R3": (["x", "y"], [], {"x"}),
+    "R4": (["x", "s", "y"], [], {"x", "s"}),
+    "R5": (["x", "y"], ["k"], {"x", "k"}),
+    "R6": (["x", "y"], ["k"], {"x"}),
+    "R7": (["x"], ["k"], set()),
+}
 
 PRELUDE = '''\
 # generated by harness/props/pipe_common.py
@@ -1047,6 +1113,19 @@ class ProgGen:
         if ctor == "dict" or self.mode != "callable":
             self.p.features.add("dict-literal")
             return "{%s}" % ", ".join("%r: %s" % (n, v) for n, v in zip(names, vals))
+        if ctor in RECORD_CLASSES:
+            # positional arguments for a prefix of the positional parameters, the rest (and keyword-only ones) by keyword
+            pos, kwo, _ = RECORD_CLASSES[ctor]
+            given = dict(zip(names, vals))
+            jmax = 0
+            while jmax < len(pos) and pos[jmax] in given:
+                jmax += 1
+            j = jmax if self.r.random() < 0.7 else self.r.randrange(0, jmax + 1)
+            args = [given[n] for n in pos[:j]]
+            kws = [(n, given[n]) for n in names if n not in pos[:j]]
+            self.r.shuffle(kws)
+            self.p.features.add("dataclass:" + ctor + (":positional" if j else ":keywords"))
+            return "%s(%s)" % (ctor, ", ".join(args + ["%s=%s" % kv for kv in kws]))
         self.p.features.add("dataclass" if ctor == "P2" else "namedtuple")
         form = self.r.randrange(3)
         if form == 0:
@@ -1120,8 +1199,14 @@ class ProgGen:
             return PYL(r.choice([INT, INT, TUP([INT, INT])]))
         if k < 0.85:
             return TUP([self.result_type(env, d - 1) for _ in range(r.randrange(1, 4))])
-        ctor = r.choice(["P2", "N2", "dict"])
-        names = {"P2": ["x", "y"], "N2": ["u", "v"], "dict": r.choice([["a", "b"], ["pt", "n"]])}[ctor]
+        ctor = r.choice(["P2", "N2", "dict", "R3", "R4", "R5", "R6", "R7"])
+        if ctor in RECORD_CLASSES:
+            pos, kwo, req = RECORD_CLASSES[ctor]
+            names = [n for n in pos + kwo if n in req or r.random() < 0.6]
+            if not names:
+                names = [(pos + kwo)[0]]
+        else:
+            names = {"P2": ["x", "y"], "N2": ["u", "v"], "dict": r.choice([["a", "b"], ["pt", "n"]])}[ctor]
         return DCT(ctor, [(n, self.result_type(env, d - 1)) for n in names])
 
     # ------------------------------------------------------------------ stages
